@@ -187,8 +187,48 @@ def multi_stream(rng, res, n):
     universe.run(cases, res, 'multi', project, oracle)
 
 
+def option_stream(rng, res, n):
+    """formulas in optional arguments (pre- and post-notes of citations,
+    \\item labels, theorem titles, short headings are K3): each formula
+    takes one placeholder, in source order"""
+    cases = []
+    meta = {}
+    forms = ['$%s$', '\\cite[Lemma~$%s$]{k}', '\\parencite[see $%s$][p. 3]{k}',
+             '\\footcite[][Section $%s$]{k}', '\\cite[$%s$]{k}', '\\item[$%s$] text',
+             '\\textbf{$%s$}', '\\Cite[see][$%s$]{k}']
+    for _ in range(n):
+        lang = rng.choice(['en', 'de', 'ru'])
+        k = rng.randint(2, 7)
+        tex = 'Start '
+        for j in range(k):
+            f = rng.choice(forms)
+            if f.startswith('\\item'):
+                tex += '\n\\begin{itemize}\n' + f % rng.choice(['a', 'x_i', 'n+1']) + '\n\\end{itemize}\n'
+            else:
+                tex += f % rng.choice(['a', 'x_i', 'n+1']) + ' word%d ' % j
+        c = parsecase.T2T(tex, lang=lang, pack='*', files={})
+        meta[(tex, lang)] = k
+        cases.append((c, None, 'options'))
+
+    def oracle(c, d, kind, im):
+        if im[0] != 'OK' or (c.latex, c.lang) not in meta:
+            return None
+        k = meta[(c.latex, c.lang)]
+        inl, _ = placeholders(c.lang)
+        want = [inl[(i + 1) % len(inl)] for i in range(k)]
+        txt = ' '.join(t for lg, t, p in universe.texts_of(im))
+        got = re.findall('|'.join(re.escape(x) for x in inl), txt)
+        # (the text of \\footcite is detached and follows the main text)
+        if sorted(got) != sorted(want) or ('footcite' not in c.latex and got != want):
+            return ('%d formulas (some in optional arguments) receive %r, successive '
+                    'placeholders of the collection are %r' % (k, got, want))
+        return None
+    universe.run(cases, res, 'options', project, oracle)
+
+
 def run(tier, seed, build, res):
     _run_own(tier, seed, build, res)
+    option_stream(random.Random(seed + 3), res, 60 if tier == 'quick' else 1500)
     # snippets of /repo's own tests and their mutations (harness/seeds.py)
     universe.run_seeds(random.Random(seed + 7), res, project, tier, share=0.6)
     universe.heading_finding('C10', res)
